@@ -717,6 +717,31 @@ def run_line(line):
         except (OverflowError, ValueError, ZeroDivisionError):
             return 'SKIP'          # an intermediate leaves the double range (cos(inf)): no object to print
         return repr_tokens(repr(ld))
+    if cmd == 'AUGASSIGN':
+        # augmented assignment (s += t ...) on a name bound to an existing expression must build a new node, like s + t:
+        # the old object, every alias of it and every tree containing it keep their meaning
+        p_, k = sx.parse_point(ts, 1)
+        e1, k = sx.parse_expr(ts, k)
+        e2, _ = sx.parse_expr(ts, k)
+        import operator as _op
+        for name, fn, plain in (('+=', _op.iadd, _op.add), ('-=', _op.isub, _op.sub), ('*=', _op.imul, _op.mul),
+                                ('/=', _op.itruediv, _op.truediv), ('**=', _op.ipow, _op.pow)):
+            a, c = build(e1), build(e2)
+            holder = X.Sine(a)
+            before = (repr(a), repr(holder), outcome(lambda: holder.at(mkpoint(p_))), outcome(lambda: a.at(mkpoint(p_))))
+            try:
+                t = fn(a, c)
+            except Exception as ex:  # noqa: BLE001
+                return 'bad: a %s b raised %s' % (name, type(ex).__name__)
+            want = plain(build(e1), build(e2))
+            if t is a:
+                return 'bad: a %s b returned the left operand itself (edited in place)' % name
+            if not (t == want) or repr(t) != repr(want):
+                return 'bad: a %s b is %r, not %r' % (name, t, want)
+            after = (repr(a), repr(holder), outcome(lambda: holder.at(mkpoint(p_))), outcome(lambda: a.at(mkpoint(p_))))
+            if after != before:
+                return 'bad: after a %s b the old operand or a tree containing it changed: %r -> %r' % (name, before, after)
+        return 'ok'
     if cmd == 'USEDRT':
         # an expression that was printed and hashed BEFORE it is differentiated and simplified: the result must equal,
         # hash like and print like the result obtained from a never-touched copy, and its printed form must read back
